@@ -352,6 +352,11 @@ class Graph:
                 self.built[b] = self.reg(obj.lookup[key], b)
         elif k == "case":
             c = case(self.node(n["d"]))
+            if n.get("ofirst") and n.get("dflt") is not None:
+                dk, dv = self.raw_or_node(n["dflt"])
+                c = c.otherwise(dv)
+                if dk == "raw":
+                    self.built[n["dflt"]] = self.reg(c.default, n["dflt"])
             for cn, rn in n.get("cases", []):
                 ck, cv = self.raw_or_node(cn)
                 rk, rv = self.raw_or_node(rn)
@@ -360,7 +365,7 @@ class Graph:
                     self.built[cn] = self.reg(c.cases[-1][0], cn)
                 if rk == "raw":
                     self.built[rn] = self.reg(c.cases[-1][1], rn)
-            if n.get("dflt") is not None:
+            if n.get("dflt") is not None and not n.get("ofirst"):
                 dk, dv = self.raw_or_node(n["dflt"])
                 c = c.otherwise(dv)
                 if dk == "raw":
